@@ -329,6 +329,11 @@ fn classify_selection(props: &mut Vec<&'static str>, c: &SelCtx, oracle: &mut dy
                     } else {
                         // the observed rule does not match the observed lexeme at all
                         add(props, "C02");
+                        if oe == ee {
+                            // ... but the expected rule does, on exactly this lexeme: the wrong
+                            // rule's action ran for a correctly delimited match
+                            add(props, "C01");
+                        }
                         if exp_via_eoi || oe == info.n_chars && info.set_has_eoi.get(c.set_before).copied().unwrap_or(false) {
                             add(props, "C05");
                         }
@@ -511,6 +516,15 @@ pub fn first_divergence(obs: &[El], exp: &[ExpEl], info: &SpecInfo, oracle: &mut
             },
             (Some(El::End), Some(_)) | (Some(_), Some(El::End)) | (None, Some(El::End)) | (Some(El::End), None) => {
                 let already = e.map(|e| e.end_already_done).unwrap_or(false);
+                // an action / token of a rule that belongs to a rule set which is not the active one
+                let foreign = match o {
+                    Some(El::Ev(oe)) => info.rule_set.get(oe.rule as usize).map(|s| *s != sc.set_before).unwrap_or(false),
+                    Some(El::It(Item::Tok { rule, .. })) => info.rule_set.get(*rule as usize).map(|s| *s != sc.set_before).unwrap_or(false),
+                    _ => false,
+                };
+                if foreign {
+                    add(&mut props, "C03");
+                }
                 if already {
                     // end of input had been acted upon (by a `$` match or an error that saw it):
                     // every further call must give None
